@@ -58,6 +58,9 @@ def custom_proof(tier):
         sf = SITE_FUNCTIONS if mod == 'src.transformations.type_erasure' else None
         out += statecheck.store_census(fe, mod, allowed, allowed_roots=roots, site_functions=sf)
         out += statecheck.mutator_call_census(fe, mod, calls, mut, site_functions=sf)
+    # the feasibility check consults the set of omitted declarations only after it is complete (a type argument may be
+    # omitted only if the declaration that would determine it is not omitted as well, whatever the order of the combination)
+    out += statecheck.phase_separation(fe, 'src.analysis.type_dependency_analysis.is_combination_feasible', 'removed_decls')
     return out
 
 
